@@ -712,3 +712,241 @@ def type_name(mod, t):
     if rt[0] == 'p':
         return 'ptr'
     return rt[0]
+
+
+# ---------------------------------------------------------------------------------------------------------------------
+# Address-to-value rule (C15): the numeric value of an address that belongs to the caller must not flow into anything
+# the caller can observe.  Explicit data flow only - a branch on ((uintptr_t)p & 3) that merely selects between two
+# access strategies is control flow, and the engine-based checks fork on the unknown alignment and compare both ways.
+INT_FLOW = {'add', 'sub', 'mul', 'udiv', 'sdiv', 'urem', 'srem', 'shl', 'lshr', 'ashr', 'and', 'or', 'xor',
+            'zext', 'sext', 'trunc', 'freeze', 'icmp'}
+COVARIANT_KEEP = {'zext', 'freeze'}          # (address + something address-free) keeps moving with the object
+
+
+def _slot_of(info_defs, v):
+    """alloca SSA name behind a pointer operand that is the alloca itself or a bitcast / all-zero gep of it"""
+    seen = 0
+    while v[0] == 'r' and seen < 8:
+        d = info_defs.get(v[1])
+        if d is None:
+            return None
+        if d.op == 'alloca':
+            return v[1]
+        if d.op in ('bitcast', 'addrspacecast'):
+            v = d.args[0][1]
+        elif d.op == 'getelementptr' and all(iv == ('c', 0) for (_, iv) in d.args[1:]):
+            v = d.args[0][1]
+        else:
+            return None
+        seen += 1
+    return None
+
+
+def _join_kind(a, b):
+    if 'dep' in (a, b):
+        return 'dep'
+    if 'cov' in (a, b):
+        return 'cov'
+    return None
+
+
+MEMFNS = ('memcpy', 'memmove', 'memset', 'memcmp', 'strncpy')
+
+
+def address_value_sites(mod, facts, only=None):
+    """-> (findings, stats).  A finding is (fn name, ins, sink kind, description).  Every integer SSA value and local
+    slot carries (kind, params): kind is None < 'cov' (an address of caller memory plus an address-free term: it moves
+    with the object and is harmless when turned into a pointer again) < 'dep' (anything else computed from such an
+    address); params is the set of the function's own integer parameters the value is computed from.  Per function a
+    summary (which parameters reach the return value / a sink) makes calls context-sensitive: a helper that byte-swaps
+    its argument taints its result only where the argument was tainted."""
+    fns = [f for f in sorted(mod.functions) if only is None or f in only]
+    summ = {}                 # fn -> {'ret_kind': kind, 'ret_params': set(k), 'sink_params': {k: description}}
+    stats = {'ptrtoint': 0, 'functions': len(fns), 'pointer slots read as integers': 0}
+    findings = {}
+    EMPTY = (None, frozenset())
+    for _round in range(8):
+        changed = False
+        stats['ptrtoint'] = 0
+        stats['pointer slots read as integers'] = 0
+        findings = {}
+        for name in fns:
+            fn = mod.functions[name]
+            pf = facts.get(name)
+            defs = {i.dest: i for i in fn.instrs() if i.dest}
+            taint = {}
+            slot_taint = {}
+            ptr_slots = set()
+            mine = summ.setdefault(name, {'ret_kind': None, 'ret_params': set(), 'sink_params': {}})
+            for k, (pt, pn, _a) in enumerate(fn.params):
+                if not is_ptr(mod, pt):
+                    taint[pn] = (None, frozenset([k]))
+
+            def tv(v):
+                if v[0] == 'r':
+                    return taint.get(v[1], EMPTY)
+                if v[0] == 'ce' and v[1] == 'ptrtoint':
+                    return ('cov', frozenset())
+                return EMPTY
+
+            def local_only(ptv):
+                o = pf.val_origin(ptv) if pf is not None else None
+                return bool(o) and all(x.startswith('alloca:') or x.startswith('global:') or x == 'function' for x in o)
+
+            def caller_visible(ptv):
+                o = pf.val_origin(ptv) if pf is not None else None
+                return not (o and all(x.startswith('alloca:') for x in o))
+
+            def join(ts):
+                k = None
+                ps = frozenset()
+                for (a, b) in ts:
+                    k = _join_kind(k, a)
+                    ps = ps | b
+                return (k, ps)
+
+            def set_slot(s, t):
+                j = join([slot_taint.get(s, EMPTY), t])
+                if slot_taint.get(s, EMPTY) != j:
+                    slot_taint[s] = j
+                    return True
+                return False
+
+            instrs = list(fn.instrs())
+            for ins in instrs:
+                if ins.op == 'store' and is_ptr(mod, ins.args[0][0]):
+                    s = _slot_of(defs, ins.args[1][1])
+                    if s and not local_only(ins.args[0]):
+                        ptr_slots.add(s)
+            it = True
+            n = 0
+            while it and n < 60:
+                it = False
+                n += 1
+                for ins in instrs:
+                    d = ins.dest
+                    new = EMPTY
+                    op = ins.op
+                    if op == 'ptrtoint':
+                        if not local_only(ins.args[0]):
+                            new = ('cov', frozenset())
+                    elif op in INT_FLOW:
+                        ts = [tv(a[1]) for a in ins.args]
+                        ks = [t[0] for t in ts]
+                        ps = join(ts)[1]
+                        if op == 'sub' and len(ks) == 2 and ks[0] and ks[1]:
+                            new = (None, ps)                         # pointer difference: the placement cancels
+                        elif op in ('add', 'sub') and len(ks) == 2 and ks.count(None) == 1 and 'dep' not in ks and (op == 'add' or ks[0]):
+                            new = ('cov', ps)
+                        elif op in COVARIANT_KEEP:
+                            new = ts[0]
+                        elif any(ks):
+                            new = ('dep', ps)
+                        else:
+                            new = (None, ps)
+                    elif op in ('phi', 'select'):
+                        vals = [x for (x, _) in ins.x['incoming']] if op == 'phi' else ins.args[1:]
+                        new = join([tv(a[1]) for a in vals])
+                    elif op == 'load' and not is_ptr(mod, ins.ty):
+                        s = _slot_of(defs, ins.args[0][1])
+                        if s:
+                            new = slot_taint.get(s, EMPTY)
+                            if s in ptr_slots and mod.resolve(ins.ty)[0] == 'i':
+                                new = join([new, ('cov', frozenset())])      # a pointer read back as an integer (type pun)
+                    elif op == 'store':
+                        s = _slot_of(defs, ins.args[1][1])
+                        if s and not is_ptr(mod, ins.args[0][0]) and set_slot(s, tv(ins.args[0][1])):
+                            it = True
+                    elif op == 'call':
+                        c = ins.x['callee']
+                        cn = c[1] if c[0] == 'g' else None
+                        base = cn.split('.')[1] if cn and cn.startswith('llvm.') else cn
+                        if base in ('memcpy', 'memmove') and len(ins.args) >= 2:
+                            ss = _slot_of(defs, ins.args[1][1])
+                            sd = _slot_of(defs, ins.args[0][1])
+                            if ss and sd and slot_taint.get(ss) and set_slot(sd, slot_taint[ss]):
+                                it = True
+                        elif cn in mod.functions and cn in summ:
+                            cs = summ[cn]
+                            ts = [tv(a[1]) for a in ins.args]
+                            dep = [ts[k] for k in cs['ret_params'] if k < len(ts)]
+                            j = join(dep)
+                            k2 = 'dep' if j[0] else None
+                            new = (_join_kind(cs['ret_kind'], k2), j[1])
+                    if d and new != EMPTY:
+                        j = join([taint.get(d, EMPTY), new])
+                        if taint.get(d, EMPTY) != j:
+                            taint[d] = j
+                            it = True
+
+            def sink(ins, t, kind, what):
+                nonlocal changed
+                if t[0]:
+                    findings[(name, ins.bb, ins.idx, kind)] = (name, ins, kind, what)
+                for k in t[1]:
+                    if k not in mine['sink_params']:
+                        mine['sink_params'][k] = (kind, what, name)
+                        changed = True
+
+            for ins in instrs:
+                op = ins.op
+                if op == 'ptrtoint' and not local_only(ins.args[0]):
+                    stats['ptrtoint'] += 1
+                if op == 'load' and _slot_of(defs, ins.args[0][1]) in ptr_slots and not is_ptr(mod, ins.ty) \
+                        and mod.resolve(ins.ty)[0] == 'i':
+                    stats['pointer slots read as integers'] += 1
+                if op == 'store':
+                    t = tv(ins.args[0][1])
+                    if t != EMPTY and _slot_of(defs, ins.args[1][1]) is None and not is_ptr(mod, ins.args[0][0]) \
+                            and caller_visible(ins.args[1]):
+                        sink(ins, t, 'stored-value', 'a value computed from the numeric address of caller memory is stored where the caller can read it')
+                elif op == 'ret' and ins.args and not is_ptr(mod, ins.args[0][0]):
+                    t = tv(ins.args[0][1])
+                    if t[0] and mine['ret_kind'] != _join_kind(mine['ret_kind'], t[0]):
+                        mine['ret_kind'] = _join_kind(mine['ret_kind'], t[0])
+                        changed = True
+                    if not t[1] <= mine['ret_params']:
+                        mine['ret_params'] |= t[1]
+                        changed = True
+                    if t[0] and not (set(fn.linkage) & {'internal', 'private'}):
+                        findings[(name, ins.bb, ins.idx, 'ret')] = (name, ins, 'returned-value',
+                                                                    'the return value is computed from the numeric address of caller memory')
+                elif op == 'inttoptr':
+                    t = tv(ins.args[0][1])
+                    if t[0] == 'dep':
+                        findings[(name, ins.bb, ins.idx, 'itp')] = (name, ins, 'address-from-address-bits',
+                                                                    'a pointer is rebuilt from address bits that do not move with the object (rounding, masking)')
+                elif op == 'getelementptr':
+                    for a in ins.args[1:]:
+                        t = tv(a[1])
+                        if t != EMPTY:
+                            sink(ins, t, 'offset', 'an offset into an object is computed from the numeric address of caller memory')
+                elif op == 'call':
+                    c = ins.x['callee']
+                    cn = c[1] if c[0] == 'g' else None
+                    base = cn.split('.')[1] if cn and cn.startswith('llvm.') else cn
+                    if base in MEMFNS:
+                        if len(ins.args) > 2 and not is_ptr(mod, ins.args[2][0]):
+                            t = tv(ins.args[2][1])
+                            if t != EMPTY:
+                                sink(ins, t, 'length', 'the length of a %s is computed from the numeric address of caller memory' % base)
+                        if base == 'memset' and len(ins.args) > 1:
+                            t = tv(ins.args[1][1])
+                            if t != EMPTY and caller_visible(ins.args[0]):
+                                sink(ins, t, 'stored-value', 'the fill value of a memset is computed from the numeric address of caller memory')
+                        if base in ('memcpy', 'memmove') and len(ins.args) > 1:
+                            ss = _slot_of(defs, ins.args[1][1])
+                            if ss and slot_taint.get(ss) and _slot_of(defs, ins.args[0][1]) is None and caller_visible(ins.args[0]):
+                                sink(ins, slot_taint[ss], 'stored-value',
+                                     'bytes computed from the numeric address of caller memory are copied to where the caller can read them')
+                    elif cn in mod.functions and cn in summ:
+                        cs = summ[cn]
+                        for k, a in enumerate(ins.args):
+                            if k in cs['sink_params'] and not is_ptr(mod, a[0]):
+                                t = tv(a[1])
+                                if t != EMPTY:
+                                    kind, what, where = cs['sink_params'][k]
+                                    sink(ins, t, kind, 'argument %d of %s: inside %s, %s' % (k + 1, cn, where, what))
+        if not changed:
+            break
+    return sorted(findings.values(), key=lambda f: (f[0], f[1].bb, f[1].idx)), stats
